@@ -210,7 +210,11 @@ fn parse_pattern_nosubst<L: Language>(
             })
             .collect();
         let node = L::from_syntax(&syntax_elems_mock)
-            .ok_or_else(|| ParseError::FromSyntaxFailed(syntax_elems_mock))?;
+            .ok_or_else(|| ParseError::FromSyntaxFailed(syntax_elems_mock.clone()))?;
+        // from_syntax may ignore surplus arguments; a node must take exactly what was written.
+        if node.to_syntax().len() != syntax_elems_mock.len() {
+            return Err(ParseError::FromSyntaxFailed(syntax_elems_mock));
+        }
         let syntax_elems = syntax_elems
             .into_iter()
             .filter_map(|x| match x {
